@@ -40,7 +40,6 @@ def worker(k):
         else:
             pr = subprocess.run(["./check", prop], cwd=ver, capture_output=True, text=True, env=env)
             out = pr.stdout
-            open(f"/var/tmp/seedpar_{d}.out", "w").write(out + "\n=== stderr\n" + pr.stderr)
             v = [l for l in out.split("\n") if l.startswith("VIOLATION")]
             found = [l for l in v if "no-failing-input-found" not in l]
             verdict = "CAUGHT with failing input" if found else ("CAUGHT (no-failing-input-found)" if v else "MISSED")
